@@ -69,6 +69,9 @@ def run(chk):
 
     cls = {k: prog.cls(v) for k, v in c05.CHAIN.items()}
     chk.borrow("C06.R8", c05.r4_parent, chk, cls)
+    # ... and nothing fills those containers behind the back of the classes that own them (C05.R3): a product whose bond list
+    # is assigned wholesale keeps the parents its elements had
+    chk.borrow("C06.R8", c05.r3_who_may_write, chk)
 
 
 def r1_evolve(chk):
@@ -94,12 +97,20 @@ def r1_evolve(chk):
             for s in walk_no_nested(ev.node):
                 if isinstance(s, ast.Assign) and isinstance(s.targets[0], ast.Subscript) and isinstance(s.targets[0].slice, ast.Constant) \
                         and s.targets[0].slice.value == fld and _is_deep_copy_of(s.value, f"self.{fld}"):
-                    # the only admissible condition is "the caller did not override the field"
-                    gs = [g for g in walk_no_nested(ev.node) if isinstance(g, ast.If) and any(x is s for b in g.body for x in ast.walk(b))]
-                    if all(norm(g.test) in (f"'{fld}' not in changes", f"changes.get('{fld}') is None") for g in gs):
+                    # the only admissible condition is "the caller did not override the field" - on the way to the copy
+                    # (enclosing tests, else arms and guard clauses alike), and no other store hands the field over uncopied
+                    from ..canon import path_conditions
+
+                    pcs = [norm(t) for t in path_conditions(ev.node, s)]
+                    raw = [x for x in walk_no_nested(ev.node) if isinstance(x, ast.Assign) and x is not s and isinstance(x.targets[0], ast.Subscript)
+                           and isinstance(x.targets[0].slice, ast.Constant) and x.targets[0].slice.value == fld and not _is_deep_copy_of(x.value, f"self.{fld}")
+                           and f"self.{fld}" in {norm(n) for n in ast.walk(x.value)}]
+                    if all(t in (f"'{fld}' not in changes", f"changes.get('{fld}') is None") for t in pcs) and not raw:
                         ok = True
+                    elif raw:
+                        cond_note = f" (`{short(raw[0], 60)}` passes the source's own object on)"
                     else:
-                        cond_note = " (the copy is skipped when `" + " and ".join(norm(g.test) for g in gs) + "` is false)"
+                        cond_note = " (the copy is only made when `" + " and ".join(pcs) + "`)"
                 if isinstance(s, ast.Call) and isinstance(s.func, ast.Attribute) and s.func.attr == "setdefault" and len(s.args) == 2 \
                         and isinstance(s.args[0], ast.Constant) and s.args[0].value == fld and _is_deep_copy_of(s.args[1], f"self.{fld}"):
                     ok = True
